@@ -152,17 +152,27 @@ def buffer_witness(phi):
     for name, c in consts.items():
         if not z3.is_array(c):
             continue
-        stores = []
-        for a in out:
-            if z3.is_eq(a) and a.arg(0).eq(c) and z3.is_store(a.arg(1)) and a.arg(1).arg(0).eq(c):
-                stores.append((a.arg(1).arg(1), a.arg(1).arg(2)))
+        def access(a):
+            """(t, q) when the assertion declares the access M[t] = q, in either of its two spellings:
+            M == Store(M, t, q)  or  Select(M, t) == q"""
+            if not z3.is_eq(a):
+                return None
+            for x, y in ((a.arg(0), a.arg(1)), (a.arg(1), a.arg(0))):
+                if x.eq(c) and z3.is_store(y) and y.arg(0).eq(c):
+                    return y.arg(1), y.arg(2)
+                if z3.is_select(x) and x.arg(0).eq(c) and c.decl().name() not in formula.constants([y])[0]:
+                    return x.arg(1), y
+            return None
+
+        stores = [acc for acc in (access(a) for a in out) if acc is not None]
         M = z3.K(z3.IntSort(), z3.IntVal(0))
         for t, q in stores:
             M = z3.Store(M, t, q)
         new = []
         for a in out:
-            if z3.is_eq(a) and a.arg(0).eq(c) and z3.is_store(a.arg(1)) and a.arg(1).arg(0).eq(c):
-                a = z3.Select(M, a.arg(1).arg(1)) == a.arg(1).arg(2)  # M == Store(M, t, q)  <=>  M[t] == q
+            acc = access(a)
+            if acc is not None:
+                a = z3.Select(M, acc[0]) == acc[1]
             else:
                 a = z3.substitute(a, (c, M))
             new.append(z3.simplify(a, expand_select_store=True))
